@@ -240,7 +240,7 @@ func (m *Mem) Read(keys []*Term) *Term {
 			}
 		case MCopy:
 			// keys = (region, idx)
-			inR := And(EqOff(keys[0], cur.region), BVUle(cur.dst, keys[1]), BVUlt(BVSub(keys[1], cur.dst), cur.n))
+			inR := And(EqOff(keys[0], cur.region), leOff(cur.dst, keys[1]), BVUlt(BVSub(keys[1], cur.dst), cur.n))
 			if inR == False {
 				cur = cur.prev
 				continue
@@ -259,7 +259,7 @@ func (m *Mem) Read(keys []*Term) *Term {
 			cur = cur.prev
 			continue
 		case MHavoc:
-			c := And(EqOff(keys[0], cur.region), BVUle(cur.lo, keys[1]), BVUlt(keys[1], cur.hi))
+			c := And(EqOff(keys[0], cur.region), leOff(cur.lo, keys[1]), ltOff(keys[1], cur.hi))
 			if c == False {
 				cur = cur.prev
 				continue
@@ -480,3 +480,40 @@ func stripRegions(m *Mem, dead map[uint64]bool, minID int, memo map[*Mem]*Mem) *
 
 // litLookup resolves reads from string-literal regions (set by the engine).
 var litLookup func(keys []*Term) (*Term, bool)
+
+// leOff / ltOff: unsigned comparison of two memory indices with one extra
+// syntactic rule: x+c1 <= x+c2 folds on the constants when both are small and
+// non-negative (indices are slice offsets below 2^48, so no wrap-around).
+func offConsts(a, b *Term) (ca, cb int64, ok bool) {
+	ba, xa := splitOff(a)
+	bb, xb := splitOff(b)
+	if ba != bb || ba.IsConst() {
+		return 0, 0, false
+	}
+	get := func(x *Term) (int64, bool) {
+		if x == nil {
+			return 0, true
+		}
+		if x.val.BitLen() > 40 {
+			return 0, false
+		}
+		return x.val.Int64(), true
+	}
+	ca, ok1 := get(xa)
+	cb, ok2 := get(xb)
+	return ca, cb, ok1 && ok2
+}
+
+func leOff(a, b *Term) *Term {
+	if ca, cb, ok := offConsts(a, b); ok {
+		return BoolConst(ca <= cb)
+	}
+	return BVUle(a, b)
+}
+
+func ltOff(a, b *Term) *Term {
+	if ca, cb, ok := offConsts(a, b); ok {
+		return BoolConst(ca < cb)
+	}
+	return BVUlt(a, b)
+}
